@@ -148,6 +148,7 @@ void FlexPath::scale(double scael_factor, const Vec2 center) {
     FlexPathElement* el = elements;
     for (uint64_t ne = 0; ne < num_elements; ne++, el++) {
         el->end_extensions *= fabs(scael_factor);
+        el->bend_radius *= fabs(scael_factor);
         Vec2* wo = el->half_width_and_offset.items;
         for (uint64_t num = spine.point_array.count; num > 0; num--) *wo++ *= wo_scale;
     }
@@ -219,6 +220,7 @@ void FlexPath::transform(double magnification, bool x_reflection, double rotatio
     FlexPathElement* el = elements;
     for (uint64_t ne = 0; ne < num_elements; ne++, el++) {
         el->end_extensions *= fabs(magnification);
+        el->bend_radius *= fabs(magnification);
         Vec2* wo = el->half_width_and_offset.items;
         for (uint64_t num = spine.point_array.count; num > 0; num--) *wo++ *= wo_scale;
     }
